@@ -45,11 +45,78 @@ def install(B, LenV):
             raise Unknown("len of opaque value")
         raise Raised(self.mkexc("TypeError", f"object of type {self.typename(x)!r} has no len()"))
 
+    B._ABC_DUNDERS = {"Iterable": ("__iter__",), "Iterator": ("__iter__", "__next__"), "Sized": ("__len__",), "Container": ("__contains__",), "Callable": ("__call__",),
+                    "Collection": ("__len__", "__iter__", "__contains__"), "Reversible": ("__reversed__", "__iter__"), "Hashable": ("__hash__",)}
+
+    @method
+    def abc_instance(self, I, o, name):
+        """isinstance(o, <abstract base class `name` of collections.abc / typing>): the one-method classes by their dunder methods, the
+        container classes by registration of the built-in containers; a user class counts only when it really derives from it"""
+        kinds = {
+            "list": {"Iterable", "Sized", "Container", "Collection", "Reversible", "Sequence", "MutableSequence"},
+            "deque": {"Iterable", "Sized", "Container", "Collection", "Reversible", "Sequence", "MutableSequence"},
+            "tuple": {"Iterable", "Sized", "Container", "Collection", "Reversible", "Sequence", "Hashable"},
+            "str": {"Iterable", "Sized", "Container", "Collection", "Reversible", "Sequence", "Hashable"},
+            "bytes": {"Iterable", "Sized", "Container", "Collection", "Reversible", "Sequence", "Hashable", "ByteString"},
+            "bytearray": {"Iterable", "Sized", "Container", "Collection", "Reversible", "Sequence", "MutableSequence", "ByteString"},
+            "dict": {"Iterable", "Sized", "Container", "Collection", "Reversible", "Mapping", "MutableMapping"},
+            "mappingproxy": {"Iterable", "Sized", "Container", "Collection", "Reversible", "Mapping", "Hashable"},
+            "set": {"Iterable", "Sized", "Container", "Collection", "Set", "MutableSet"},
+            "frozenset": {"Iterable", "Sized", "Container", "Collection", "Set", "Hashable"},
+            "iterator": {"Iterable", "Iterator", "Hashable"}, "generator": {"Iterable", "Iterator", "Generator", "Hashable"},
+            "scalar": {"Hashable"}, "callable": {"Callable", "Hashable"},
+        }
+        known = set().union(*kinds.values())
+        if name not in known:
+            raise Unknown(f"isinstance() against the abstract base class {name} is not modelled")
+        if getattr(o, "ucls", None) is None:
+            if isinstance(o, Seq):
+                return name in kinds[o.kind]
+            if isinstance(o, (str, SymStr)):
+                return name in kinds["str"]
+            if isinstance(o, bytes):
+                return name in kinds["bytes"]
+            if isinstance(o, bytearray):
+                return name in kinds["bytearray"]
+            if isinstance(o, DictV):
+                return name in kinds["dict"]
+            if isinstance(o, ProxyV):
+                return name in kinds["mappingproxy"]
+            if isinstance(o, SetV):
+                return name in kinds["frozenset" if o.frozen else "set"]
+            if isinstance(o, GenV):
+                return name in kinds["generator"]
+            if isinstance(o, IterV):
+                return name in kinds["iterator"]
+            if o is None or isinstance(o, (int, float, bool)):
+                return name in kinds["scalar"]
+            if isinstance(o, (Func, Bound, Builtin, Callback, ClassV)):
+                return name in kinds["callable"]
+        if isinstance(o, Obj) or getattr(o, "ucls", None) is not None:
+            cls = o.cls if isinstance(o, Obj) else o.ucls
+            if any(getattr(k_, "abc", None) == name for k_ in cls.mro):
+                return True
+            dunders = self._ABC_DUNDERS.get(name)
+            if dunders is None:
+                if getattr(o, "ucls", None) is not None:
+                    base = next((k_.name for k_ in cls.mro if k_.builtin and k_.name in kinds), None)
+                    return base is not None and name in kinds[base]
+                return False        # Sequence, Mapping, Set ...: by inheritance or registration only
+            if name == "Hashable":
+                hm, owner = cls.lookup("__hash__")
+                return hm is not None or owner is None
+            return all(cls.lookup(d_)[0] is not None for d_ in dunders)
+        raise Unknown(f"isinstance({type(o).__name__} value, {name})")
+
     @method
     def f_isinstance(self, I, o, c):
         cs = c.items if isinstance(c, Seq) else [c]
         t = self.typeof(o)
         for k in cs:
+            if isinstance(k, ClassV) and getattr(k, "abc", None) and k.abc not in ("Any", "Callable") and not t.issub(k):
+                if self.abc_instance(I, o, k.abc):
+                    return True
+                continue
             if isinstance(k, ExtV):  # e.g. re.Pattern
                 if isinstance(o, ExtV) and o.attrs.get("__class__") is k:
                     return True
@@ -892,8 +959,12 @@ def install(B, LenV):
         if full in _EXT_SUBMODULES or mod.name in ("os", "collections", "importlib", "xml", "concurrent") and name in ("path", "abc", "util", "etree", "futures"):
             return self.ext_module(full)
         if mod.name in ("typing", "collections.abc", "typing_extensions"):
-            c = ClassV(name, [self.OBJECT], None, builtin=True)
-            return c
+            key = "abc:" + name
+            if key not in self.ext_mods:
+                c = ClassV(name, [self.OBJECT], None, builtin=True)
+                c.abc = name        # isinstance / issubclass against it are structural (f_isinstance)
+                self.ext_mods[key] = c
+            return self.ext_mods[key]
         if full in self.ext_mods:
             return self.ext_mods[full]
         # anything else of an external module: an external object, calls are logged
